@@ -143,6 +143,13 @@ def cases(tier):
             for wrap in ('none', 'sum', 'product'):
                 for route in ('api', 'cfg'):
                     out.append(dict(route='pow_zero', base=base, e=e, wrap=wrap, via=route))
+    # ... and where its base is identically zero over an interval (beyond the end of a range, outside table data) a power with ANY positive constant
+    # exponent is the zero function there: value, slope and curvature are 0
+    for base in ('range-then-zero', 'zero', 'table-beyond-data', 'product-with-zero'):
+        for e in (0.25, 0.5, 0.75, 1, 1.5, 2, 3):
+            for wrap in ('none', 'sum', 'product'):
+                for route in ('api', 'cfg'):
+                    out.append(dict(route='pow_flat_zero', base=base, e=e, wrap=wrap, via=route))
     # multi-range potentials with a non-zero default value (a plateau below the first range: its derivatives are zero)
     for comb in ('none', 'sum', 'product'):
         for marker in ('>', '>='):
@@ -440,6 +447,48 @@ def run_pow_zero(case):
     return dict(outcome='ok:pow_zero' if not viol else 'violation', nontrivial=True, evals=n, violations=viol)
 
 
+def run_pow_flat_zero(case):
+    L = dict((n, it) for n, it, _l in leaves())
+    morse = L['morse']
+    base = {'range-then-zero': D(('>', 0.0, form('polynomial', 4.0, -4.0, 1.0)), ('>=', 2.0, form('zero'))), 'zero': D(form('zero')),
+            'table-beyond-data': D({'table': 'tf'}), 'product-with-zero': D(mod('product', form('buck', 1000.0, 0.3, 32.0), D(('>', 0.0, form('constant', 1.0)), ('>=', 2.0, form('zero')))))}[case['base']]
+    t = mod('pow', base, form('constant', case['e']))
+    d = D(t) if case['wrap'] == 'none' else D(mod(case['wrap'], t, morse))
+    env = M.env()
+    if case['via'] == 'api':
+        try:
+            f = R.api_defn(d)
+        except R.NoAPI:
+            return dict(outcome='skip', nontrivial=False, evals=0, violations=[])
+    else:
+        f = R.config_read(M.pair_ini('LAMMPS', [('A', 'B', d)], 5.0, 6)).potentials[0].potentialFunction
+    viol, n = [], 0
+    for r in ((13.5, 14.0, 20.0) if case['base'] == 'table-beyond-data' else (2.5, 3.0, 4.75)):
+        a = X.ev_defn(base, r, env)
+        if (a.v, a.d1, a.d2) != (0.0, 0.0, 0.0):
+            return dict(outcome='harness:base-not-zero', nontrivial=False, evals=0, violations=[dict(sig='harness:base-not-zero', msg=repr(a), detail={})])
+        mj = X.ev_item(morse, r, env)
+        pj = Jet(0.0, 0.0, 0.0)
+        tot = pj if case['wrap'] == 'none' else (pj + mj if case['wrap'] == 'sum' else pj * mj)
+        for which, want in (('__call__', tot.v), ('deriv', tot.d1), ('deriv2', tot.d2)):
+            if which != '__call__' and not hasattr(f, which):
+                viol.append(dict(sig='%s-not-offered' % which, msg='%s: .%s is not offered' % (X.render_defn(d), which), detail={}))
+                break
+            n += 1
+            try:
+                got = f(r) if which == '__call__' else getattr(f, which)(r)
+            except (ZeroDivisionError, ValueError, OverflowError) as ex:
+                viol.append(dict(sig='%s-raises-where-pow-base-is-identically-zero:%s' % (which, type(ex).__name__), msg='%s: %s(%r) raised %s: %s; the base is the zero function around r and the true value is %r'
+                                 % (X.render_defn(d), which, r, type(ex).__name__, ex, want), detail={}))
+                break
+            if not abs(got - want) <= 1e-9 * (abs(want) + abs(mj.v) + abs(mj.d1) + abs(mj.d2) + 1.0):
+                viol.append(dict(sig='%s-wrong-where-pow-base-is-identically-zero' % which, msg='%s: %s(%r) = %r, true value %r' % (X.render_defn(d), which, r, got, want), detail={}))
+                break
+        if viol:
+            break
+    return dict(outcome='ok:pow_flat_zero' if not viol else 'violation', nontrivial=True, evals=n, violations=viol)
+
+
 def run_util(case):
     import atsim.potentials as ap
     L = dict((n, it) for n, it, _l in leaves())
@@ -553,6 +602,8 @@ def run_case(case):
         return run_util(case)
     if case['route'] == 'pow_zero':
         return run_pow_zero(case)
+    if case['route'] == 'pow_flat_zero':
+        return run_pow_flat_zero(case)
     if case['route'] == 'shared':
         return run_shared(case)
     if case['route'] == 'leaf':
